@@ -28,7 +28,8 @@ def grid(shape_zyx, block):
     return (-(-X // bx), -(-Y // by), -(-Z // bz))
 
 
-def decode(buf, num_channels, shape_zyx, block, itemsize, strict=True):
+def decode(buf, num_channels, shape_zyx, block, itemsize, strict=True,
+           check_padding=False):
     """-> list over channels of flat lists (z,y,x order, C layout) of ints.
     Raises SpecError if the file is not well formed. With strict=True the
     structural rules that a validator checks are enforced as well."""
@@ -73,6 +74,23 @@ def decode(buf, num_channels, shape_zyx, block, itemsize, strict=True):
                                 "bytes" % (x, y, z, voff, 4 * nwords,
                                            len(buf)))
                     mask = (1 << bits) - 1
+                    if check_padding:
+                        # the format leaves the content of padding voxels of
+                        # border blocks unspecified; with check_padding the
+                        # file is only called valid if they, too, reference
+                        # lookup entries inside the file
+                        for i in range(nvox):
+                            if bits:
+                                word = _u32(buf, voff + 4 * (
+                                    (i * bits) // 32), "encoded value")
+                                idx = (word >> ((i * bits) % 32)) & mask
+                            else:
+                                idx = 0
+                            lo = toff + idx * itemsize
+                            if lo < 0 or lo + itemsize > len(buf):
+                                raise SpecError(
+                                    "out-of-file", "lookup entry of a "
+                                    "padding voxel outside the file")
                     for dz in range(min(bz, Z - z * bz)):
                         for dy in range(min(by, Y - y * by)):
                             for dx in range(min(bx, X - x * bx)):
